@@ -1,5 +1,1619 @@
-(* Proofs/LexerCrunch.v — under construction *)
-From Coq Require Import List NArith ZArith Bool Lia.
+(* Proofs/LexerCrunch.v — C12: line crunching.
+
+   The tokenizer model (Model/Lexer.v) ignores blanks and letter case outside
+   literal text.  Elementary perturbations of a line:
+     ins_at i w line   insert the blank w before byte i
+     flip_at i line    change the case of byte i (when it is an ASCII letter)
+   Protected positions are computed from the tokenizer's own ranges
+   (protected_ins for insertion points, protected_byte = protected_flip for
+   bytes).  Main results (see the end of the file):
+     1. crunch_insert(_ranges), crunch_delete(_ranges)
+     2. crunch_flip(_ranges)
+     3. edits_preserve / crunch_edits   (finite sequences of edits)
+     4. Examples (non-vacuity)
+     5. DATA items: parse_data_padded_plain, parse_data_padded_quoted
+
+   Facts about the generated tables (Gen/Tables.v) are decided by computation
+   (tables_nv, tables_na, and LexerRanges.tables_ok). *)
+From Coq Require Import List NArith ZArith Bool Lia Arith ZifyBool Relations.
 From Abasic Require Import Model.Bytes Model.Num Model.Token Model.Data Model.Lexer Gen.Tables
-     Model.State Model.Eval Model.Interp Proofs.Monad Proofs.Frames.
+     Proofs.LexerRanges.
 Import ListNotations.
+Local Open Scope nat_scope.
+
+
+(* ------------------------------------------------------------------ *)
+(* 0. Elementary perturbations *)
+
+Definition ins_at (i : nat) (b : N) (s : bytes) : bytes := firstn i s ++ b :: skipn i s.
+
+Definition flipc (b : N) : N :=
+  if is_upper b then (b + 32)%N else if is_lower b then (b - 32)%N else b.
+
+Fixpoint flip_at (i : nat) (s : bytes) : bytes :=
+  match s with
+  | [] => []
+  | b :: t => match i with O => flipc b :: t | S i' => b :: flip_at i' t end
+  end.
+
+(* [sh j n]: a length / end offset [n] after a byte was inserted at offset [j]. *)
+Definition sh (j n : nat) : nat := if j <? n then S n else n.
+
+Lemma sh_lt j n : j < n -> sh j n = S n.
+Proof. unfold sh. intros H. destruct (Nat.ltb_spec j n); lia. Qed.
+Lemma sh_ge j n : n <= j -> sh j n = n.
+Proof. unfold sh. intros H. destruct (Nat.ltb_spec j n); lia. Qed.
+Lemma sh_S j n : sh (S j) (S n) = S (sh j n).
+Proof. unfold sh. change (S j <? S n) with (j <? n). destruct (j <? n); reflexivity. Qed.
+
+Lemma ins_at_0 b s : ins_at 0 b s = b :: s.
+Proof. reflexivity. Qed.
+Lemma ins_at_S j b x t : ins_at (S j) b (x :: t) = x :: ins_at j b t.
+Proof. reflexivity. Qed.
+Lemma ins_at_nil j b : ins_at j b [] = [b].
+Proof. destruct j; reflexivity. Qed.
+
+Lemma length_ins_at j b s : length (ins_at j b s) = S (length s).
+Proof.
+  unfold ins_at. rewrite app_length. cbn [length].
+  rewrite Nat.add_succ_r, <- app_length, firstn_skipn. reflexivity.
+Qed.
+
+Lemma skipn_ins_le : forall s j n b, j <= n -> skipn (S n) (ins_at j b s) = skipn n s.
+Proof.
+  induction s as [|x t IH]; intros j n b H.
+  - rewrite ins_at_nil. cbn [skipn]. now rewrite !skipn_nil.
+  - destruct j as [|j]; [reflexivity|]. destruct n as [|n]; [lia|].
+    rewrite ins_at_S. cbn [skipn]. apply (IH j n b). lia.
+Qed.
+
+Lemma skipn_ins_ge : forall n j s b, n <= j -> j <= length s ->
+  skipn n (ins_at j b s) = ins_at (j - n) b (skipn n s).
+Proof.
+  induction n as [|n IH]; intros j s b H1 H2.
+  - now rewrite Nat.sub_0_r.
+  - destruct j as [|j]; [lia|]. destruct s as [|x t]; [cbn in H2; lia|].
+    rewrite ins_at_S. cbn [skipn Nat.sub]. apply IH; cbn in H2; lia.
+Qed.
+
+Lemma firstn_ins_ge : forall n j s b, n <= j -> j <= length s ->
+  firstn n (ins_at j b s) = firstn n s.
+Proof.
+  induction n as [|n IH]; intros j s b H1 H2; [reflexivity|].
+  destruct j as [|j]; [lia|]. destruct s as [|x t]; [cbn in H2; lia|].
+  rewrite ins_at_S. cbn [firstn]. f_equal. apply IH; cbn in H2; lia.
+Qed.
+
+(* ------------------------------------------------------------------ *)
+(* Blanks *)
+
+Lemma crunch_next_pos s c n : crunch_next s = Some (c, n) -> 1 <= n.
+Proof. intros H. apply crunch_next_spec in H. destruct H as (_ & m & -> & _). lia. Qed.
+
+Lemma ckf_nil_kw s acc : chomp_keyword_from [] s acc = Some acc.
+Proof. destruct s; reflexivity. Qed.
+
+Lemma ckf_S : forall s kw acc,
+  chomp_keyword_from kw s (S acc) = option_map S (chomp_keyword_from kw s acc).
+Proof.
+  induction s as [|x t IH]; intros [|k kw] acc; try reflexivity.
+  cbn [chomp_keyword_from]. destruct (is_basic_ws x); [apply IH|].
+  destruct (to_upper x =? k)%N; [apply IH|reflexivity].
+Qed.
+
+Lemma ckf_bound : forall s kw acc n,
+  chomp_keyword_from kw s acc = Some n -> acc <= n /\ (kw <> [] -> acc < n).
+Proof.
+  induction s as [|x t IH]; intros [|k kw] acc n; cbn [chomp_keyword_from];
+    try discriminate; try (intros H; inversion H; subst; split; [lia|congruence]).
+  destruct (is_basic_ws x).
+  - intros H. apply IH in H. destruct H. split; [lia|intros _; lia].
+  - destruct (to_upper x =? k)%N; [|discriminate].
+    intros H. apply IH in H. destruct H. split; [lia|intros _; lia].
+Qed.
+
+Section Ins.
+Variable bl : N.
+Hypothesis Hbl : is_basic_ws bl = true.
+
+(* L1: the crunching primitives *)
+
+
+Lemma crunch_next_ins : forall s j,
+  crunch_next (ins_at j bl s) =
+  match crunch_next s with Some (c, n) => Some (c, sh j n) | None => None end.
+Proof.
+  induction s as [|x t IH]; intros j.
+  - rewrite ins_at_nil. cbn [crunch_next]. now rewrite Hbl.
+  - destruct j as [|j].
+    + rewrite ins_at_0. cbn [crunch_next]. rewrite Hbl.
+      destruct (is_basic_ws x) eqn:Ex.
+      * destruct (crunch_next t) as [[c n]|]; [|reflexivity].
+        rewrite sh_lt by lia. reflexivity.
+      * rewrite sh_lt by lia. reflexivity.
+    + rewrite ins_at_S. cbn [crunch_next]. destruct (is_basic_ws x) eqn:Ex.
+      * rewrite IH. destruct (crunch_next t) as [[c n]|]; [|reflexivity].
+        now rewrite sh_S.
+      * rewrite sh_ge by lia. reflexivity.
+Qed.
+
+
+
+
+Lemma ckf_blank k kw s acc :
+  chomp_keyword_from (k :: kw) (bl :: s) acc = chomp_keyword_from (k :: kw) s (S acc).
+Proof. cbn [chomp_keyword_from]. now rewrite Hbl. Qed.
+
+Lemma ckf_ins : forall s kw acc j,
+  chomp_keyword_from kw (ins_at j bl s) acc =
+  match chomp_keyword_from kw s acc with
+  | Some n => Some (if acc + j <? n then S n else n)
+  | None => None
+  end.
+Proof.
+  induction s as [|x t IH]; intros kw acc j.
+  - rewrite ins_at_nil. destruct kw as [|k kw].
+    + cbn [chomp_keyword_from]. destruct (Nat.ltb_spec (acc + j) acc); [lia|reflexivity].
+    + cbn [chomp_keyword_from]. rewrite Hbl. reflexivity.
+  - destruct kw as [|k kw].
+    + rewrite !ckf_nil_kw. destruct (Nat.ltb_spec (acc + j) acc); [lia|reflexivity].
+    + destruct j as [|j].
+      * rewrite ins_at_0. rewrite ckf_blank.
+        rewrite ckf_S. destruct (chomp_keyword_from (k :: kw) (x :: t) acc) as [n|] eqn:E;
+          [|reflexivity].
+        apply ckf_bound in E. destruct E as [_ E]. cbn [option_map].
+        destruct (Nat.ltb_spec (acc + 0) n); [reflexivity|]. assert (acc < n) by (apply E; congruence). lia.
+      * rewrite ins_at_S. cbn [chomp_keyword_from].
+        destruct (is_basic_ws x).
+        -- rewrite IH. replace (S acc + j) with (acc + S j) by lia. reflexivity.
+        -- destruct (to_upper x =? k)%N; [|reflexivity].
+           rewrite IH. replace (S acc + j) with (acc + S j) by lia. reflexivity.
+Qed.
+
+Lemma chomp_keyword_ins kw s j :
+  chomp_keyword kw (ins_at j bl s) = option_map (sh j) (chomp_keyword kw s).
+Proof.
+  destruct kw as [|k kw]; [reflexivity|]. unfold chomp_keyword. rewrite ckf_ins.
+  destruct (chomp_keyword_from _ _ _); reflexivity.
+Qed.
+
+Definition sh_tok (j : nat) (r : option (token * nat)) : option (token * nat) :=
+  match r with Some (t, n) => Some (t, sh j n) | None => None end.
+
+Lemma first_keyword_ins tbl s j :
+  first_keyword tbl (ins_at j bl s) = sh_tok j (first_keyword tbl s).
+Proof.
+  induction tbl as [|[kw t] tbl IH]; cbn [first_keyword]; [reflexivity|].
+  rewrite chomp_keyword_ins. destruct (chomp_keyword kw s); cbn [option_map]; [reflexivity|exact IH].
+Qed.
+
+Lemma chomp_any_keyword_ins s j :
+  chomp_any_keyword (ins_at j bl s) = sh_tok j (chomp_any_keyword s).
+Proof. apply first_keyword_ins. Qed.
+
+End Ins.
+
+
+Section Ins2.
+Variable bl : N.
+Hypothesis Hbl : is_basic_ws bl = true.
+
+(* L2: the matchers *)
+
+Lemma chomp_one_or_two_ins s j : j <= length s ->
+  chomp_one_or_two (ins_at j bl s) = sh_tok j (chomp_one_or_two s).
+Proof.
+  intros Hj. unfold chomp_one_or_two. rewrite (crunch_next_ins bl Hbl).
+  destruct (crunch_next s) as [[b n]|] eqn:E1; [|reflexivity].
+  destruct (lookup_punct punct b) as [t|]; [|reflexivity].
+  destruct (Nat.ltb_spec j n) as [Hlt|Hge].
+  - rewrite (sh_lt j n), skipn_ins_le by lia.
+    destruct (crunch_next (skipn n s)) as [[c m]|]; [destruct (lookup_two _ _ _)|];
+      cbn [sh_tok]; rewrite sh_lt by lia; reflexivity.
+  - rewrite (sh_ge j n), skipn_ins_ge by lia. rewrite (crunch_next_ins bl Hbl).
+    destruct (crunch_next (skipn n s)) as [[c m]|]; [destruct (lookup_two _ _ _)|];
+      cbn [sh_tok]; [|now rewrite sh_ge by lia|now rewrite sh_ge by lia].
+    do 2 f_equal. unfold sh. destruct (Nat.ltb_spec (j - n) m), (Nat.ltb_spec j (n + m)); lia.
+Qed.
+
+Lemma bl_not_quote : (bl =? 34)%N = false.
+Proof. unfold is_basic_ws, is_ascii_ws in Hbl. lia. Qed.
+
+Lemma find_quote_ins : forall t j,
+  find_quote (ins_at j bl t) =
+  match find_quote t with Some k => Some (if j <=? k then S k else k) | None => None end.
+Proof.
+  induction t as [|x t IH]; intros j.
+  - rewrite ins_at_nil. cbn [find_quote]. now rewrite bl_not_quote.
+  - destruct j as [|j].
+    + rewrite ins_at_0. cbn [find_quote]. rewrite bl_not_quote.
+      destruct (x =? 34)%N; [reflexivity|]. destruct (find_quote t); reflexivity.
+    + rewrite ins_at_S. cbn [find_quote]. destruct (x =? 34)%N; [reflexivity|].
+      rewrite IH. destruct (find_quote t) as [k|]; [|reflexivity].
+      change (S j <=? S k) with (j <=? k). destruct (j <=? k); reflexivity.
+Qed.
+
+Definition is_str (t : token) : bool := match t with TString _ => true | _ => false end.
+
+Lemma chomp_string_is_str p s t n : chomp_string p s = Match t n -> is_str t = true.
+Proof.
+  rewrite chomp_string_eq. destruct s as [|b r]; [discriminate|].
+  destruct (b =? 34)%N; [|discriminate]. destruct (find_quote r); [|discriminate].
+  intros H; inversion H; reflexivity.
+Qed.
+
+Lemma chomp_string_ins p s j : 1 <= j <= length s ->
+  match chomp_string p s with
+  | Match t n =>
+      if j <? n then exists t', chomp_string p (ins_at j bl s) = Match t' (S n) /\ is_str t' = true
+      else chomp_string p (ins_at j bl s) = Match t n
+  | NoMatch => chomp_string p (ins_at j bl s) = NoMatch
+  | Fail e => chomp_string p (ins_at j bl s) = Fail e
+  end.
+Proof.
+  intros Hj. rewrite !chomp_string_eq. destruct s as [|b r]; [cbn in Hj; lia|].
+  destruct j as [|j]; [lia|]. rewrite ins_at_S. cbn [length] in Hj.
+  destruct (b =? 34)%N; [|reflexivity]. rewrite find_quote_ins.
+  destruct (find_quote r) as [k|] eqn:Ek; [|reflexivity].
+  destruct (Nat.ltb_spec (S j) (k + 2)) as [Hlt|Hge].
+  - destruct (Nat.leb_spec j k); [|lia]. eexists. split; reflexivity.
+  - destruct (Nat.leb_spec j k); [lia|]. rewrite firstn_ins_ge by lia. reflexivity.
+Qed.
+
+(* numbers *)
+
+Lemma number_span_blank s k d l : number_span (bl :: s) k d l = number_span s (S k) d l.
+Proof. cbn [number_span]. now rewrite Hbl. Qed.
+
+Lemma number_span_shift k0 : forall s k d l, k0 <= k ->
+  number_span s (S k) d (sh k0 l) = let (d', n) := number_span s k d l in (d', sh k0 n).
+Proof.
+  induction s as [|x t IH]; intros k d l Hk; cbn [number_span]; [reflexivity|].
+  destruct (is_basic_ws x); [apply IH; lia|].
+  destruct (is_digit x || (x =? 46)%N); [|reflexivity].
+  specialize (IH (S k) (d ++ [x]) (S k)). rewrite (sh_lt k0 (S k)) in IH by lia. apply IH. lia.
+Qed.
+
+Lemma number_span_ins : forall s j k d l, l <= k ->
+  number_span (ins_at j bl s) k d l = let (d', n) := number_span s k d l in (d', sh (k + j) n).
+Proof.
+  induction s as [|x t IH]; intros j k d l Hl.
+  - rewrite ins_at_nil, number_span_blank. cbn [number_span]. now rewrite sh_ge by lia.
+  - destruct j as [|j].
+    + rewrite ins_at_0, number_span_blank.
+      pose proof (number_span_shift k (x :: t) k d l (le_n _)) as H.
+      rewrite (sh_ge k l) in H by lia. rewrite H, Nat.add_0_r. reflexivity.
+    + rewrite ins_at_S. cbn [number_span]. destruct (is_basic_ws x).
+      * rewrite IH by lia. replace (S k + j) with (k + S j) by lia. reflexivity.
+      * destruct (is_digit x || (x =? 46)%N).
+        -- rewrite IH by lia. replace (S k + j) with (k + S j) by lia. reflexivity.
+        -- now rewrite sh_ge by lia.
+Qed.
+
+Definition is_num (t : token) : bool := match t with TNumber _ => true | _ => false end.
+
+Lemma chomp_number_ins p s j :
+  match chomp_number p s with
+  | Match t n => chomp_number p (ins_at j bl s) = Match t (sh j n) /\ is_num t = true
+  | NoMatch => chomp_number p (ins_at j bl s) = NoMatch
+  | Fail _ => exists e', chomp_number p (ins_at j bl s) = Fail e'
+  end.
+Proof.
+  unfold chomp_number. rewrite number_span_ins by lia.
+  destruct (number_span s 0 [] 0) as [d n]. cbn [Nat.add].
+  destruct n as [|n]; [now rewrite sh_ge by lia|].
+  assert (E : exists m, sh j (S n) = S m).
+  { unfold sh. destruct (j <? S n); eauto. }
+  destruct E as [m E]. rewrite E. rewrite <- E.
+  destruct (parse_f64 d) as [x|]; [destruct (f64_is_finite x)|]; eauto.
+Qed.
+
+(* symbols *)
+
+Lemma symbol_span_blank s chars c p :
+  symbol_span (bl :: s) chars c p = symbol_span s chars c (S p).
+Proof. cbn [symbol_span]. now rewrite Hbl. Qed.
+
+Lemma symbol_span_consumed_S : forall s chars c p,
+  symbol_span s chars (S c) p = let (c', n) := symbol_span s chars c p in (c', S n).
+Proof.
+  induction s as [|x t IH]; intros chars c p; cbn [symbol_span]; [reflexivity|].
+  destruct (is_basic_ws x); [apply IH|].
+  destruct (negb _); [reflexivity|].
+  destruct (x =? 36)%N; [reflexivity|].
+  destruct (chomp_any_keyword t); [reflexivity|].
+  change (S c + p + 1) with (S (c + p + 1)). apply IH.
+Qed.
+
+Lemma symbol_span_mono s chars c p c' n :
+  symbol_span s chars c p = (c', n) -> n = c \/ c + p < n.
+Proof.
+  intros H. apply symbol_span_spec in H. destruct H as [[-> _]|(_ & m & x & -> & _)]; [auto|right; lia].
+Qed.
+
+Lemma symbol_span_pending_S : forall s chars c p,
+  symbol_span s chars c (S p) = let (c', n) := symbol_span s chars c p in (c', sh (c + p) n).
+Proof.
+  induction s as [|x t IH]; intros chars c p; cbn [symbol_span].
+  - now rewrite sh_ge by lia.
+  - destruct (is_basic_ws x).
+    + rewrite IH. destruct (symbol_span t chars c (S p)) as [c' n] eqn:E.
+      apply symbol_span_mono in E. f_equal. unfold sh.
+      destruct (Nat.ltb_spec (c + S p) n), (Nat.ltb_spec (c + p) n); lia.
+    + destruct (negb _); [now rewrite sh_ge by lia|].
+      assert (E1 : (c + S p + 1) = sh (c + p) (c + p + 1)) by (rewrite sh_lt; lia).
+      destruct (x =? 36)%N; [now rewrite E1|].
+      destruct (chomp_any_keyword t); [now rewrite E1|].
+      replace (c + S p + 1) with (S (c + p + 1)) by lia. rewrite symbol_span_consumed_S.
+      destruct (symbol_span t _ (c + p + 1) 0) as [c' n] eqn:E.
+      apply symbol_span_mono in E. rewrite sh_lt by lia. reflexivity.
+Qed.
+
+Lemma symbol_span_ins : forall s j chars c p,
+  symbol_span (ins_at j bl s) chars c p =
+  let (c', n) := symbol_span s chars c p in (c', sh (c + p + j) n).
+Proof.
+  induction s as [|x t IH]; intros j chars c p.
+  - rewrite ins_at_nil, symbol_span_blank. cbn [symbol_span]. now rewrite sh_ge by lia.
+  - destruct j as [|j].
+    + rewrite ins_at_0, symbol_span_blank, symbol_span_pending_S, Nat.add_0_r. reflexivity.
+    + rewrite ins_at_S. cbn [symbol_span]. destruct (is_basic_ws x).
+      * rewrite IH. replace (c + S p + j) with (c + p + S j) by lia. reflexivity.
+      * destruct (negb _); [now rewrite sh_ge by lia|].
+        destruct (x =? 36)%N; [now rewrite sh_ge by lia|].
+        rewrite (chomp_any_keyword_ins bl Hbl).
+        destruct (chomp_any_keyword t) as [[? ?]|]; cbn [sh_tok]; [now rewrite sh_ge by lia|].
+        rewrite IH. replace (c + p + 1 + 0 + j) with (c + p + S j) by lia. reflexivity.
+Qed.
+
+Definition is_sym (t : token) : bool := match t with TSymbol _ => true | _ => false end.
+
+Lemma chomp_symbol_ins s j :
+  match chomp_symbol s with
+  | Match t n => chomp_symbol (ins_at j bl s) = Match t (sh j n) /\ is_sym t = true
+  | NoMatch => chomp_symbol (ins_at j bl s) = NoMatch
+  | Fail _ => False
+  end.
+Proof.
+  unfold chomp_symbol. rewrite symbol_span_ins.
+  destruct (symbol_span s [] 0 0) as [[|x chars] n]; cbn [Nat.add]; auto.
+Qed.
+
+End Ins2.
+
+
+(* ------------------------------------------------------------------ *)
+(* The DATA item parser, one character at a time *)
+
+Definition dp_stops (c : uchar) (q : bool) : bool := negb q && char_is c 58.
+
+Definition dp_next (c : uchar) (q : bool) (cur : list uchar) (el : list data_elem)
+  : bool * list uchar * list data_elem :=
+  if q then
+    if char_is c 34 then (false, [], el ++ [elem_quoted cur]) else (true, cur ++ [c], el)
+  else if char_is c 44 then
+    if all_ws cur then (false, cur, el) else (false, [], el ++ [elem_unquoted cur])
+  else if char_is c 34 then
+    if all_ws cur then (true, [], el) else (false, cur ++ [c], el)
+  else (false, cur ++ [c], el).
+
+Lemma dp_run_cons c cs q cur el n :
+  dp_run (c :: cs) q cur el n =
+  if dp_stops c q then (dp_finish false cur el, n)
+  else let '(q', cur', el') := dp_next c q cur el in dp_run cs q' cur' el' (n + length c).
+Proof.
+  cbn [dp_run]. unfold dp_stops, dp_next. destruct q; cbn [negb andb].
+  - destruct (char_is c 34); reflexivity.
+  - destruct (char_is c 58); [reflexivity|].
+    destruct (char_is c 44); [destruct (all_ws cur); reflexivity|].
+    destruct (char_is c 34); [destruct (all_ws cur); reflexivity|reflexivity].
+Qed.
+
+Lemma dp_run_mono cs q cur el n r m : dp_run cs q cur el n = (r, m) -> n <= m.
+Proof. intros H. apply dp_run_prefix in H. destruct H as (? & ? & _ & ->). lia. Qed.
+
+Lemma utf8_chars_fuel_cons f b0 r :
+  utf8_chars_fuel (S f) (b0 :: r) =
+  firstn (utf8_len b0) (b0 :: r) :: utf8_chars_fuel f (skipn (utf8_len b0) (b0 :: r)).
+Proof. reflexivity. Qed.
+
+Lemma dp_stops_len1 b0 r q :
+  dp_stops (firstn (utf8_len b0) (b0 :: r)) q = true -> utf8_len b0 = 1.
+Proof.
+  unfold dp_stops. intros H. apply andb_true_iff in H. destruct H as [_ H].
+  pose proof (utf8_len_pos b0) as Hl. destruct (utf8_len b0) as [|l] eqn:El; [lia|].
+  cbn [firstn] in H. destruct (firstn l r) eqn:Ef; [|discriminate].
+  cbn [char_is] in H. apply N.eqb_eq in H. subst b0. vm_compute in El. congruence.
+Qed.
+
+Section Ins3.
+Variable bl : N.
+Hypothesis Hbl : is_basic_ws bl = true.
+
+Lemma bl_len1 : utf8_len bl = 1.
+Proof. unfold utf8_len. pose proof (blank_ascii _ Hbl). destruct (bl <? 192)%N eqn:E; [reflexivity|lia]. Qed.
+
+Lemma bl_not_stop q : dp_stops [bl] q = false.
+Proof.
+  unfold dp_stops, char_is. unfold is_basic_ws, is_ascii_ws in Hbl.
+  destruct q; cbn [negb andb]; [reflexivity|lia].
+Qed.
+
+(* An insertion beyond the point where the parser stopped is not seen. *)
+Lemma dp_ins_after : forall f s f' q cur el n0 j r m,
+  length s <= f -> length s < f' -> j <= length s ->
+  dp_run (utf8_chars_fuel f s) q cur el n0 = (r, m) -> m < n0 + j ->
+  dp_run (utf8_chars_fuel f' (ins_at j bl s)) q cur el n0 = (r, m).
+Proof.
+  induction f as [|f IH]; intros s f' q cur el n0 j r m Hf Hf' Hj H Hm;
+    pose proof (dp_run_mono _ _ _ _ _ _ _ H) as Hmono;
+    (destruct j as [|j]; [lia|]); (destruct s as [|b0 r0]; [cbn in Hj; lia|]);
+    cbn [length] in *; [lia|].
+  destruct f' as [|f']; [lia|].
+  rewrite utf8_chars_fuel_cons, dp_run_cons in H.
+  rewrite ins_at_S, utf8_chars_fuel_cons, <- ins_at_S, dp_run_cons.
+  pose proof (utf8_len_pos b0) as Hl.
+  set (len := utf8_len b0) in *. set (s := b0 :: r0) in *.
+  assert (Ls : length s = S (length r0)) by reflexivity.
+  destruct (dp_stops (firstn len s) q) eqn:Es.
+  - apply dp_stops_len1 in Es as El. fold len in El.
+    rewrite firstn_ins_ge by lia. rewrite Es. exact H.
+  - assert (Lc : length (firstn len s) = Nat.min len (length s)) by apply firstn_length.
+    destruct (dp_next (firstn len s) q cur el) as [[q' cur'] el'] eqn:En.
+    pose proof (dp_run_mono _ _ _ _ _ _ _ H) as Hmono2.
+    assert (Hlen : len <= j) by lia.
+    rewrite firstn_ins_ge, skipn_ins_ge by lia. rewrite Es, En.
+    apply IH; try (rewrite skipn_length; lia); [exact H|lia].
+Qed.
+
+Lemma dp_ins_front f' s q cur el n0 :
+  n0 < snd (dp_run (utf8_chars_fuel (S f') (bl :: s)) q cur el n0).
+Proof.
+  rewrite utf8_chars_fuel_cons, bl_len1. cbn [firstn]. rewrite dp_run_cons, bl_not_stop.
+  destruct (dp_next [bl] q cur el) as [[q' cur'] el'].
+  destruct (dp_run _ _ _ _ _) as [r' m'] eqn:E. apply dp_run_mono in E. cbn [snd length] in *. lia.
+Qed.
+
+(* An insertion inside the text the parser consumed is consumed as well. *)
+Lemma dp_ins_inside : forall f s f' q cur el n0 j r m,
+  length s <= f -> length s < f' -> j <= length s ->
+  dp_run (utf8_chars_fuel f s) q cur el n0 = (r, m) -> n0 + j <= m ->
+  n0 + j < snd (dp_run (utf8_chars_fuel f' (ins_at j bl s)) q cur el n0).
+Proof.
+  induction f as [|f IH]; intros s f' q cur el n0 j r m Hf Hf' Hj H Hm;
+    (destruct f' as [|f']; [lia|]);
+    (destruct j as [|j]; [rewrite ins_at_0, Nat.add_0_r; apply dp_ins_front|]);
+    (destruct s as [|b0 r0]; [cbn in Hj; lia|]); cbn [length] in *; [lia|].
+  rewrite utf8_chars_fuel_cons, dp_run_cons in H.
+  rewrite ins_at_S, utf8_chars_fuel_cons, <- ins_at_S, dp_run_cons.
+  pose proof (utf8_len_pos b0) as Hl.
+  set (len := utf8_len b0) in *. set (s := b0 :: r0) in *.
+  assert (Ls : length s = S (length r0)) by reflexivity.
+  assert (Lc : length (firstn len s) = Nat.min len (length s)) by apply firstn_length.
+  destruct (dp_stops (firstn len s) q) eqn:Es.
+  { inversion H; subst. lia. }
+  destruct (dp_next (firstn len s) q cur el) as [[q' cur'] el'] eqn:En.
+  destruct (Nat.le_gt_cases len (S j)) as [Hle|Hgt].
+  - rewrite firstn_ins_ge, skipn_ins_ge by lia. rewrite Es, En.
+    pose proof (IH (skipn len s) f' q' cur' el' (n0 + length (firstn len s)) (S j - len) r m) as IH'.
+    rewrite skipn_length in IH'.
+    specialize (IH' ltac:(lia) ltac:(lia) ltac:(lia) H ltac:(lia)). lia.
+  - destruct (dp_stops (firstn len (ins_at (S j) bl s)) q) eqn:Es'.
+    { unfold s in Es'. rewrite ins_at_S in Es'. apply dp_stops_len1 in Es'. fold len in Es'. lia. }
+    destruct (dp_next (firstn len (ins_at (S j) bl s)) q cur el) as [[q2 cur2] el2].
+    destruct (dp_run (utf8_chars_fuel f' _) _ _ _ _) as [r' m'] eqn:E. apply dp_run_mono in E. cbn [snd].
+    rewrite firstn_length, length_ins_at in E. lia.
+Qed.
+
+Lemma parse_data_ins_after text j r m :
+  parse_data text = (r, m) -> j <= length text -> m < j ->
+  parse_data (ins_at j bl text) = (r, m).
+Proof.
+  unfold parse_data, utf8_chars. intros H Hj Hm. rewrite length_ins_at.
+  eapply dp_ins_after; eauto.
+Qed.
+
+Lemma parse_data_ins_inside text j r m :
+  parse_data text = (r, m) -> j <= length text -> j <= m ->
+  j < snd (parse_data (ins_at j bl text)).
+Proof.
+  unfold parse_data, utf8_chars. intros H Hj Hm. rewrite length_ins_at.
+  change j with (0 + j) at 1. eapply dp_ins_inside; eauto.
+Qed.
+
+(* REM and DATA *)
+
+Lemma chomp_remark_ins s j : j <= length s ->
+  match chomp_remark s with
+  | Match t n =>
+      exists c k, t = TRemark c /\ n = k + length c /\
+        if k <=? j then exists c', chomp_remark (ins_at j bl s) = Match (TRemark c') (k + length c')
+                                   /\ length c' = S (length c)
+        else chomp_remark (ins_at j bl s) = Match t (sh j n)
+  | NoMatch => chomp_remark (ins_at j bl s) = NoMatch
+  | Fail _ => False
+  end.
+Proof.
+  intros Hj. unfold chomp_remark. rewrite (chomp_keyword_ins bl Hbl).
+  destruct (chomp_keyword rem_keyword s) as [k|] eqn:Ek; cbn [option_map]; [|reflexivity].
+  exists (skipn k s), k. split; [reflexivity|]. split; [reflexivity|].
+  destruct (Nat.leb_spec k j) as [Hle|Hgt].
+  - rewrite sh_ge by lia. rewrite skipn_ins_ge by lia. eexists. split; [reflexivity|].
+    apply length_ins_at.
+  - rewrite (sh_lt j k) by lia. rewrite skipn_ins_le by lia. rewrite sh_lt by lia. reflexivity.
+Qed.
+
+Lemma chomp_data_ins s j : j <= length s ->
+  match chomp_data s with
+  | Match t n =>
+      exists k, chomp_keyword data_keyword s = Some k /\ is_data t = true /\
+        if (k <=? j) && (j <=? n)
+        then exists t' n', chomp_data (ins_at j bl s) = Match t' n' /\ is_data t' = true
+                           /\ chomp_keyword data_keyword (ins_at j bl s) = Some k /\ j < n'
+        else chomp_data (ins_at j bl s) = Match t (sh j n)
+  | NoMatch => chomp_data (ins_at j bl s) = NoMatch
+  | Fail _ => False
+  end.
+Proof.
+  intros Hj. unfold chomp_data. rewrite (chomp_keyword_ins bl Hbl).
+  destruct (chomp_keyword data_keyword s) as [k|] eqn:Ek; cbn [option_map]; [|reflexivity].
+  destruct (parse_data (skipn k s)) as [el m] eqn:Ep.
+  exists k. split; [reflexivity|]. split; [reflexivity|].
+  destruct (Nat.leb_spec k j) as [Hle|Hgt]; cbn [andb].
+  - rewrite (sh_ge j k) by lia. rewrite skipn_ins_ge by lia.
+    destruct (Nat.leb_spec j (k + m)) as [Hle2|Hgt2].
+    + pose proof (parse_data_ins_inside (skipn k s) (j - k) el m Ep) as Hin.
+      rewrite skipn_length in Hin. specialize (Hin ltac:(lia) ltac:(lia)).
+      destruct (parse_data (ins_at (j - k) bl (skipn k s))) as [el' m'] eqn:Ep'.
+      cbn [snd] in Hin. exists (TData el'), (k + m').
+      split; [reflexivity|]. split; [reflexivity|]. split; [|lia].
+      reflexivity.
+    + rewrite (parse_data_ins_after (skipn k s) (j - k) el m Ep); [|rewrite skipn_length; lia|lia].
+      now rewrite sh_ge by lia.
+  - rewrite (sh_lt j k) by lia. rewrite skipn_ins_le by lia. rewrite Ep.
+    now rewrite sh_lt by lia.
+Qed.
+
+End Ins3.
+
+
+(* ------------------------------------------------------------------ *)
+(* Verbatim regions, relative to the start of a token.
+   [s] = the text from the first byte of the token, [n] = its length,
+   [j >= 1] = offset of the insertion point / of the byte. *)
+
+Definition verb_tok (t : token) : bool :=
+  match t with TString _ | TRemark _ | TData _ => true | _ => false end.
+
+Definition prot_tok_ins (s : bytes) (t : token) (n j : nat) : bool :=
+  match t with
+  | TString _ => j <? n
+  | TRemark c => n - length c <=? j
+  | TData _ => match chomp_keyword data_keyword s with
+               | Some k => (k <=? j) && (j <=? n)
+               | None => false
+               end
+  | _ => false
+  end.
+
+Definition prot_tok_byte (s : bytes) (t : token) (n j : nat) : bool :=
+  match t with
+  | TString _ => S j <? n
+  | TRemark c => n - length c <=? j
+  | TData _ => match chomp_keyword data_keyword s with
+               | Some k => (k <=? j) && (j <? n)
+               | None => false
+               end
+  | _ => false
+  end.
+
+Lemma prot_tok_ins_plain s t n j : verb_tok t = false -> prot_tok_ins s t n j = false.
+Proof. destruct t; cbn; congruence. Qed.
+
+(* The tables only produce tokens without verbatim text (decided by computation). *)
+Definition keywords_nv (tbl : list (bytes * token)) : bool :=
+  forallb (fun e => negb (verb_tok (snd e))) tbl.
+Definition punct_nv (tbl : list (N * token)) : bool :=
+  forallb (fun e => negb (verb_tok (snd e))) tbl.
+Definition two_char_nv (tbl : list (token * N * token)) : bool :=
+  forallb (fun e => negb (verb_tok (snd e))) tbl.
+
+Lemma tables_nv :
+  keywords_nv keywords = true /\ punct_nv punct = true /\ two_char_nv two_char = true.
+Proof. vm_compute. repeat split; reflexivity. Qed.
+
+Lemma first_keyword_nv tbl s t n :
+  keywords_nv tbl = true -> first_keyword tbl s = Some (t, n) -> verb_tok t = false.
+Proof.
+  induction tbl as [|[kw t0] tbl IH]; cbn [first_keyword keywords_nv forallb]; [discriminate|].
+  intros Hok. apply andb_true_iff in Hok. destruct Hok as [Hk Hok]. cbn [snd] in Hk.
+  destruct (chomp_keyword kw s); [|exact (IH Hok)].
+  intros H; inversion H; subst. now apply negb_true_iff.
+Qed.
+
+Lemma lookup_punct_nv tbl b t :
+  punct_nv tbl = true -> lookup_punct tbl b = Some t -> verb_tok t = false.
+Proof.
+  induction tbl as [|[c t0] tbl IH]; cbn [lookup_punct punct_nv forallb]; [discriminate|].
+  intros Hok. apply andb_true_iff in Hok. destruct Hok as [Hk Hok]. cbn [snd] in Hk.
+  destruct (c =? b)%N; [|exact (IH Hok)].
+  intros H; inversion H; subst. now apply negb_true_iff.
+Qed.
+
+Lemma lookup_two_nv tbl f b t :
+  two_char_nv tbl = true -> lookup_two tbl f b = Some t -> verb_tok t = false.
+Proof.
+  induction tbl as [|[[f0 c] t0] tbl IH]; cbn [lookup_two two_char_nv forallb]; [discriminate|].
+  intros Hok. apply andb_true_iff in Hok. destruct Hok as [Hk Hok]. cbn [snd] in Hk.
+  destruct (token_eqb f0 f && (c =? b)%N); [|exact (IH Hok)].
+  intros H; inversion H; subst. now apply negb_true_iff.
+Qed.
+
+Lemma chomp_any_keyword_nv s t n : chomp_any_keyword s = Some (t, n) -> verb_tok t = false.
+Proof. apply first_keyword_nv, tables_nv. Qed.
+
+Lemma chomp_one_or_two_nv s t n : chomp_one_or_two s = Some (t, n) -> verb_tok t = false.
+Proof.
+  unfold chomp_one_or_two. destruct (crunch_next s) as [[b k]|]; [|discriminate].
+  destruct (lookup_punct punct b) as [t1|] eqn:Ep; [|discriminate].
+  apply lookup_punct_nv in Ep; [|apply tables_nv].
+  destruct (crunch_next (skipn k s)) as [[c m]|]; [|intros H; inversion H; subst; exact Ep].
+  destruct (lookup_two two_char t1 c) as [t2|] eqn:E2; intros H; inversion H; subst; [|exact Ep].
+  eapply lookup_two_nv; [apply tables_nv|exact E2].
+Qed.
+
+(* ------------------------------------------------------------------ *)
+(* L3: the dispatcher under a blank insertion at offset j >= 1 *)
+
+Section Ins4.
+Variable bl : N.
+Hypothesis Hbl : is_basic_ws bl = true.
+
+Lemma chomp_next_token_ins p s j : 1 <= j <= length s ->
+  match chomp_next_token p s with
+  | Match t n =>
+      if prot_tok_ins s t n j
+      then exists t' n', chomp_next_token p (ins_at j bl s) = Match t' n'
+                         /\ prot_tok_byte (ins_at j bl s) t' n' j = true
+      else chomp_next_token p (ins_at j bl s) = Match t (sh j n)
+  | NoMatch => chomp_next_token p (ins_at j bl s) = NoMatch
+  | Fail e => exists e', chomp_next_token p (ins_at j bl s) = Fail e'
+  end.
+Proof.
+  intros Hj. unfold chomp_next_token.
+  rewrite (chomp_any_keyword_ins bl Hbl).
+  destruct (chomp_any_keyword s) as [[t n]|] eqn:E1; cbn [sh_tok].
+  { rewrite prot_tok_ins_plain by (eapply chomp_any_keyword_nv; eauto). reflexivity. }
+  rewrite (chomp_one_or_two_ins bl Hbl) by lia.
+  destruct (chomp_one_or_two s) as [[t n]|] eqn:E2; cbn [sh_tok].
+  { rewrite prot_tok_ins_plain by (eapply chomp_one_or_two_nv; eauto). reflexivity. }
+  pose proof (chomp_string_ins bl Hbl p s j Hj) as H3.
+  destruct (chomp_string p s) as [|t n|e] eqn:E3.
+  2:{ apply chomp_string_is_str in E3. destruct t; try discriminate. cbn [prot_tok_ins].
+      destruct (j <? n) eqn:Ejn.
+      - destruct H3 as (t' & H3 & Hs). rewrite H3. exists t', (S n). split; [reflexivity|].
+        destruct t'; try discriminate. cbn [prot_tok_byte]. lia.
+      - rewrite H3. rewrite sh_ge by lia. reflexivity. }
+  2:{ rewrite H3. eauto. }
+  rewrite H3.
+  pose proof (chomp_number_ins bl Hbl p s j) as H4.
+  destruct (chomp_number p s) as [|t n|e] eqn:E4.
+  2:{ destruct H4 as [H4 Hn]. rewrite H4. destruct t; try discriminate. reflexivity. }
+  2:{ destruct H4 as [e' H4]. rewrite H4. eauto. }
+  rewrite H4.
+  pose proof (chomp_remark_ins bl Hbl s j ltac:(lia)) as H5.
+  destruct (chomp_remark s) as [|t n|e] eqn:E5; [|clear E5|destruct H5].
+  2:{ destruct H5 as (c & k & -> & -> & H5). cbn [prot_tok_ins].
+      replace (k + length c - length c) with k by lia.
+      destruct (k <=? j) eqn:Ekj.
+      - destruct H5 as (c' & H5 & Hc'). rewrite H5. do 2 eexists. split; [reflexivity|].
+        cbn [prot_tok_byte]. lia.
+      - rewrite H5. reflexivity. }
+  rewrite H5.
+  pose proof (chomp_data_ins bl Hbl s j ltac:(lia)) as H6.
+  destruct (chomp_data s) as [|t n|e] eqn:E6; [|clear E6|destruct H6].
+  2:{ destruct H6 as (k & Ek & Hd & H6). destruct t; try discriminate. cbn [prot_tok_ins].
+      rewrite Ek. destruct ((k <=? j) && (j <=? n)) eqn:Ekj.
+      - destruct H6 as (t' & n' & H6 & Hd' & Ek' & Hn'). rewrite H6. exists t', n'.
+        split; [reflexivity|]. destruct t'; try discriminate. cbn [prot_tok_byte].
+        rewrite Ek'. lia.
+      - rewrite H6. reflexivity. }
+  rewrite H6.
+  pose proof (chomp_symbol_ins bl Hbl s j) as H7.
+  destruct (chomp_symbol s) as [|t n|e] eqn:E7; [|clear E7|destruct H7].
+  2:{ destruct H7 as [H7 Hs]. rewrite H7. destruct t; try discriminate. reflexivity. }
+  rewrite H7. eauto.
+Qed.
+
+End Ins4.
+
+(* ------------------------------------------------------------------ *)
+(* The driver: moving the start position; lower bounds of ranges *)
+
+Definition add_r (d : nat) (r : ranged) : ranged :=
+  let '(t, (a, b)) := r in (t, (d + a, d + b)).
+
+Definition add_e (d : nat) (e : tok_error) : tok_error :=
+  match e with
+  | IllegalCharacter i => IllegalCharacter (d + i)
+  | UnterminatedStringLiteral i => UnterminatedStringLiteral (d + i)
+  | InvalidNumber a b => InvalidNumber (d + a) (d + b)
+  end.
+
+Definition add_res (d : nat) (r : tok_result) : tok_result :=
+  match r with
+  | TokOk ts => TokOk (map (add_r d) ts)
+  | TokErr ts e => TokErr (map (add_r d) ts) (add_e d e)
+  end.
+
+Lemma chomp_next_token_shift d p s :
+  chomp_next_token (d + p) s =
+  match chomp_next_token p s with
+  | Match t n => Match t n
+  | NoMatch => NoMatch
+  | Fail e => Fail (add_e d e)
+  end.
+Proof.
+  unfold chomp_next_token.
+  destruct (chomp_any_keyword s) as [[t n]|]; [reflexivity|].
+  destruct (chomp_one_or_two s) as [[t n]|]; [reflexivity|].
+  rewrite !chomp_string_eq. destruct s as [|b r]; [reflexivity|].
+  destruct (b =? 34)%N.
+  { destruct (find_quote r); reflexivity. }
+  unfold chomp_number. destruct (number_span (b :: r) 0 [] 0) as [dg n].
+  destruct n as [|n].
+  2:{ destruct (parse_f64 dg) as [x|]; [destruct (f64_is_finite x); [reflexivity|]|];
+        cbn [add_e]; now rewrite Nat.add_assoc. }
+  set (s0 := b :: r).
+  destruct (chomp_remark s0) as [|t n|e] eqn:E5; [|reflexivity|now apply chomp_remark_fail in E5].
+  destruct (chomp_data s0) as [|t n|e] eqn:E6; [|reflexivity|now apply chomp_data_fail in E6].
+  destruct (chomp_symbol s0) as [|t n|e] eqn:E7; [|reflexivity|now apply chomp_symbol_fail in E7].
+  reflexivity.
+Qed.
+
+
+Lemma tok_from_shift d : forall f p s, tok_from f (d + p) s = add_res d (tok_from f p s).
+Proof.
+  induction f as [|f IH]; intros p s; cbn [tok_from]; [reflexivity|].
+  destruct (skipn (leading_ws s) s) as [|c r] eqn:Es; [reflexivity|]. rewrite <- Es.
+  rewrite <- !Nat.add_assoc, chomp_next_token_shift.
+  destruct (chomp_next_token (p + leading_ws s) _) as [|t n|e]; try reflexivity.
+  rewrite <- (Nat.add_assoc d (p + leading_ws s) n), IH.
+  destruct (tok_from f _ _); cbn [prepend add_res map app add_r]; reflexivity.
+Qed.
+
+Lemma tok_from_fuel f1 f2 pos s :
+  length s < f1 -> length s < f2 -> tok_from f1 pos s = tok_from f2 pos s.
+Proof.
+  intros H1 H2. pose proof (tokenize_from_fuel_irrelevant f1 f2 pos s [] H1 H2) as H.
+  rewrite !tokenize_from_tok_from in H. cbn [rev] in H.
+  destruct (tok_from f1 pos s), (tok_from f2 pos s); cbn [prepend app] in H; congruence.
+Qed.
+
+(* Every range starts at or after the first non-blank byte and is non-empty. *)
+Definition lb_ok (lo : nat) (r : ranged) : Prop := lo <= fst (snd r) /\ fst (snd r) < snd (snd r).
+
+Lemma tok_from_lb : forall f pos s ts,
+  tok_from f pos s = TokOk ts -> Forall (lb_ok (pos + leading_ws s)) ts.
+Proof.
+  induction f as [|f IH]; intros pos s ts; cbn [tok_from].
+  - intros H; inversion H; constructor.
+  - destruct (skipn (leading_ws s) s) as [|c r] eqn:Es; [intros H; inversion H; constructor|].
+    rewrite <- Es.
+    pose proof (chomp_next_token_spec (pos + leading_ws s) (skipn (leading_ws s) s)) as Hs.
+    destruct (chomp_next_token _ _) as [|t n|e]; try discriminate.
+    destruct (tok_from f _ _) as [ts0|] eqn:E0; try discriminate.
+    cbn [prepend app]. intros H; inversion H; subst. destruct Hs as [Hn _].
+    constructor; [unfold lb_ok; cbn; lia|].
+    apply IH in E0. eapply Forall_impl; [|exact E0].
+    intros [t' [a b]]. unfold lb_ok; cbn. lia.
+Qed.
+
+(* ------------------------------------------------------------------ *)
+(* Protected positions, from the tokenizer's own ranges *)
+
+(* An insertion point [i] ("before byte i"). *)
+Definition prot1_ins (line : bytes) (i : nat) (r : ranged) : bool :=
+  let '(t, (a, b)) := r in
+  (a <? i) &&
+  match t with
+  | TString _ => i <? b
+  | TRemark c => b - length c <=? i
+  | TData _ => match chomp_keyword data_keyword (skipn a line) with
+               | Some k => (a + k <=? i) && (i <=? b)
+               | None => false
+               end
+  | _ => false
+  end.
+
+Definition protected_ins (ts : list ranged) (line : bytes) (i : nat) : bool :=
+  existsb (prot1_ins line i) ts.
+
+(* A byte [i] (case flips; the blank to be deleted). *)
+Definition prot1_byte (line : bytes) (i : nat) (r : ranged) : bool :=
+  let '(t, (a, b)) := r in
+  (a <? i) &&
+  match t with
+  | TString _ => S i <? b
+  | TRemark c => b - length c <=? i
+  | TData _ => match chomp_keyword data_keyword (skipn a line) with
+               | Some k => (a + k <=? i) && (i <? b)
+               | None => false
+               end
+  | _ => false
+  end.
+
+Definition protected_byte (ts : list ranged) (line : bytes) (i : nat) : bool :=
+  existsb (prot1_byte line i) ts.
+
+Definition protected_flip := protected_byte.
+
+Lemma prot1_ins_rel line a n j t : 1 <= j ->
+  prot1_ins line (a + j) (t, (a, a + n)) = prot_tok_ins (skipn a line) t n j.
+Proof.
+  intros Hj. unfold prot1_ins, prot_tok_ins.
+  destruct t; try lia.
+  destruct (chomp_keyword data_keyword (skipn a line)); lia.
+Qed.
+
+Lemma prot1_byte_rel line a n j t : 1 <= j ->
+  prot1_byte line (a + j) (t, (a, a + n)) = prot_tok_byte (skipn a line) t n j.
+Proof.
+  intros Hj. unfold prot1_byte, prot_tok_byte.
+  destruct t; try lia.
+  destruct (chomp_keyword data_keyword (skipn a line)); lia.
+Qed.
+
+Lemma protected_ins_lb ts line i lo :
+  Forall (lb_ok lo) ts -> i <= lo -> protected_ins ts line i = false.
+Proof.
+  unfold protected_ins. induction 1 as [|[t [a b]] ts Hr Hts IH]; intros Hi; [reflexivity|].
+  cbn [existsb]. rewrite IH by assumption. unfold lb_ok in Hr. cbn in Hr.
+  unfold prot1_ins. destruct (Nat.ltb_spec a i); [lia|reflexivity].
+Qed.
+
+(* Ranges after the insertion *)
+Definition shift_r (i : nat) (r : ranged) : ranged :=
+  let '(t, (a, b)) := r in (t, (if i <=? a then S a else a, sh i b)).
+
+Lemma map_fst_shift_r i ts : map fst (map (shift_r i) ts) = map fst ts.
+Proof. rewrite map_map. apply map_ext. intros [t [a b]]. reflexivity. Qed.
+
+Lemma shift_r_lb ts i lo :
+  Forall (lb_ok lo) ts -> i <= lo -> map (add_r 1) ts = map (shift_r i) ts.
+Proof.
+  induction 1 as [|[t [a b]] ts Hr Hts IH]; intros Hi; [reflexivity|].
+  cbn [map]. rewrite IH by assumption. f_equal. unfold lb_ok in Hr. cbn in Hr.
+  unfold add_r, shift_r. destruct (Nat.leb_spec i a); [|lia]. rewrite sh_lt by lia. reflexivity.
+Qed.
+
+(* ------------------------------------------------------------------ *)
+(* Leading blanks *)
+
+Section Ins5.
+Variable bl : N.
+Hypothesis Hbl : is_basic_ws bl = true.
+
+Lemma leading_ws_ins_le : forall s j, j <= leading_ws s ->
+  leading_ws (ins_at j bl s) = S (leading_ws s).
+Proof.
+  induction s as [|x t IH]; intros j Hj.
+  - rewrite ins_at_nil. cbn [leading_ws]. now rewrite Hbl.
+  - destruct j as [|j]; [rewrite ins_at_0; cbn [leading_ws]; now rewrite Hbl|].
+    rewrite ins_at_S. cbn [leading_ws] in *. destruct (is_basic_ws x); [|lia].
+    rewrite IH by lia. reflexivity.
+Qed.
+
+Lemma leading_ws_ins_gt : forall s j, leading_ws s < j ->
+  j <= length s -> leading_ws (ins_at j bl s) = leading_ws s.
+Proof.
+  induction s as [|x t IH]; intros j Hj Hl; [cbn in *; lia|].
+  destruct j as [|j]; [lia|]. rewrite ins_at_S. cbn [leading_ws length] in *.
+  destruct (is_basic_ws x); [|reflexivity]. rewrite IH by lia. reflexivity.
+Qed.
+
+Lemma tok_from_ins_lead f pos s j : j <= leading_ws s ->
+  tok_from (S f) pos (ins_at j bl s) = tok_from (S f) (1 + pos) s.
+Proof.
+  intros Hj. cbn [tok_from]. rewrite leading_ws_ins_le, skipn_ins_le by lia.
+  replace (pos + S (leading_ws s)) with (1 + pos + leading_ws s) by lia. reflexivity.
+Qed.
+
+(* ------------------------------------------------------------------ *)
+(* L4: the drivers *)
+
+Variable line : bytes.
+Variable i : nat.
+Hypothesis Hi : i <= length line.
+
+Let line' := ins_at i bl line.
+
+Lemma skipn_line' pos : pos <= i -> skipn pos line' = ins_at (i - pos) bl (skipn pos line).
+Proof. intros H. unfold line'. now apply skipn_ins_ge. Qed.
+
+Lemma ins_driver : forall f f' pos ts,
+  pos <= i -> length line - pos < f -> S (length line) - pos < f' ->
+  tok_from f pos (skipn pos line) = TokOk ts ->
+  protected_ins ts line i = false ->
+  tok_from f' pos (skipn pos line') = TokOk (map (shift_r i) ts).
+Proof.
+  induction f as [|f IH]; intros f' pos ts Hpos Hf Hf' H Hp; [lia|].
+  destruct f' as [|f']; [lia|].
+  rewrite skipn_line' by assumption.
+  set (s := skipn pos line) in *. set (j := i - pos).
+  assert (Ls : length s = length line - pos) by (unfold s; apply skipn_length).
+  destruct (Nat.le_gt_cases j (leading_ws s)) as [Hle|Hgt].
+  - (* (a) among the leading blanks *)
+    rewrite tok_from_ins_lead by assumption. rewrite tok_from_shift.
+    rewrite (tok_from_fuel (S f') (S f)) by lia. rewrite H. cbn [add_res].
+    f_equal. apply tok_from_lb in H. eapply shift_r_lb; [exact H|]. lia.
+  - cbn [tok_from] in H |- *.
+    rewrite leading_ws_ins_gt by lia. rewrite skipn_ins_ge by lia.
+    set (w := leading_ws s) in *. set (a := pos + w) in *.
+    assert (Es1 : skipn w s = skipn a line) by (unfold s, a; apply skipn_skipn').
+    rewrite Es1 in *. set (s1 := skipn a line) in *.
+    assert (Ls1 : length s1 = length line - a) by (unfold s1; apply skipn_length).
+    pose proof (chomp_next_token_ins bl Hbl a s1 (j - w) ltac:(lia)) as H3.
+    pose proof (chomp_next_token_spec a s1) as Hspec.
+    destruct s1 as [|c r] eqn:Es1'; [cbn in Ls1; lia|]. rewrite <- Es1' in *.
+    assert (Ej : i = a + (j - w)) by lia.
+    destruct (ins_at (j - w) bl s1) as [|c' r'] eqn:Ei.
+    { apply (f_equal (@length _)) in Ei. rewrite length_ins_at in Ei. discriminate. }
+    rewrite <- Ei in *. clear Ei c' r'.
+    destruct (chomp_next_token a s1) as [|t n|e]; try discriminate.
+    destruct (tok_from f (a + n) (skipn n s1)) as [ts0|] eqn:E0; try discriminate.
+    cbn [prepend app] in H. inversion H; subst ts. clear H.
+    unfold protected_ins in Hp. cbn [existsb] in Hp. apply orb_false_iff in Hp.
+    destruct Hp as [Hp1 Hp0]. fold (protected_ins ts0 line i) in Hp0.
+    rewrite Ej, prot1_ins_rel in Hp1 by lia. fold s1 in Hp1. rewrite Hp1 in H3.
+    rewrite H3. destruct Hspec as [Hn _].
+    unfold s1 in E0. rewrite skipn_skipn' in E0.
+    destruct (Nat.lt_ge_cases (j - w) n) as [Hin|Hout].
+    + (* (b) inside the span *)
+      rewrite sh_lt by lia. rewrite skipn_ins_le by lia.
+      unfold s1. rewrite skipn_skipn'.
+      replace (a + S n) with (1 + (a + n)) by lia. rewrite tok_from_shift.
+      rewrite (tok_from_fuel f' f) by (rewrite skipn_length; lia). rewrite E0.
+      cbn [add_res prepend app map]. f_equal. f_equal.
+      * unfold shift_r. destruct (Nat.leb_spec i a); [lia|]. rewrite sh_lt by lia.
+        reflexivity.
+      * apply tok_from_lb in E0. eapply shift_r_lb; [exact E0|]. lia.
+    + (* (c) after the span *)
+      rewrite sh_ge by lia. replace (j - w) with (i - a) by lia.
+      unfold s1. rewrite <- skipn_line' by lia. rewrite skipn_skipn'.
+      rewrite (IH f' (a + n) ts0); try assumption; try lia.
+      cbn [prepend app map]. f_equal. f_equal.
+      unfold shift_r. destruct (Nat.leb_spec i a); [lia|]. rewrite sh_ge by lia. reflexivity.
+Qed.
+
+End Ins5.
+
+
+Section Del.
+Variable bl : N.
+Hypothesis Hbl : is_basic_ws bl = true.
+Variable line : bytes.
+Variable i : nat.
+Hypothesis Hi : i <= length line.
+
+Let line' := ins_at i bl line.
+
+Lemma add_res_ok d r ts' : add_res d r = TokOk ts' -> exists ts, r = TokOk ts /\ ts' = map (add_r d) ts.
+Proof. destruct r as [ts|ts e]; cbn [add_res]; [|discriminate]. intros H; inversion H; eauto. Qed.
+
+Lemma del_driver : forall f f' pos ts',
+  pos <= i -> length line - pos < f -> S (length line) - pos < f' ->
+  tok_from f' pos (skipn pos line') = TokOk ts' ->
+  protected_byte ts' line' i = false ->
+  exists ts, tok_from f pos (skipn pos line) = TokOk ts /\ protected_ins ts line i = false.
+Proof.
+  induction f as [|f IH]; intros f' pos ts' Hpos Hf Hf' H Hp; [lia|].
+  destruct f' as [|f']; [lia|].
+  unfold line' in H. rewrite skipn_ins_ge in H by assumption.
+  set (s := skipn pos line) in *. set (j := i - pos) in *.
+  assert (Ls : length s = length line - pos) by (unfold s; apply skipn_length).
+  destruct (Nat.le_gt_cases j (leading_ws s)) as [Hle|Hgt].
+  - rewrite (tok_from_ins_lead bl Hbl) in H by assumption. rewrite tok_from_shift in H.
+    apply add_res_ok in H. destruct H as (ts & H & _).
+    rewrite (tok_from_fuel (S f') (S f)) in H by lia. exists ts. split; [exact H|].
+    apply tok_from_lb in H. eapply protected_ins_lb; [exact H|]. lia.
+  - cbn [tok_from] in H |- *.
+    rewrite (leading_ws_ins_gt bl Hbl) in H by lia. rewrite skipn_ins_ge in H by lia.
+    set (w := leading_ws s) in *. set (a := pos + w) in *.
+    assert (Es1 : skipn w s = skipn a line) by (unfold s, a; apply skipn_skipn').
+    rewrite Es1 in *. set (s1 := skipn a line) in *.
+    assert (Ls1 : length s1 = length line - a) by (unfold s1; apply skipn_length).
+    assert (Ej : i = a + (j - w)) by lia.
+    assert (Es1' : ins_at (j - w) bl s1 = skipn a line').
+    { unfold line', s1. rewrite skipn_ins_ge by lia. f_equal. lia. }
+    pose proof (chomp_next_token_ins bl Hbl a s1 (j - w) ltac:(lia)) as H3.
+    pose proof (chomp_next_token_spec a s1) as Hspec.
+    destruct s1 as [|c r] eqn:Es1''; [cbn in Ls1; lia|]. rewrite <- Es1'' in *.
+    destruct (ins_at (j - w) bl s1) as [|c' r'] eqn:Ei.
+    { apply (f_equal (@length _)) in Ei. rewrite length_ins_at in Ei. discriminate. }
+    rewrite <- Ei in *. clear Ei c' r'.
+    destruct (chomp_next_token a (ins_at (j - w) bl s1)) as [|t' n'|e'] eqn:Ec'; try discriminate.
+    destruct (tok_from f' (a + n') _) as [ts0'|] eqn:E0'; try discriminate.
+    cbn [prepend app] in H. inversion H; subst ts'. clear H.
+    unfold protected_byte in Hp. cbn [existsb] in Hp. apply orb_false_iff in Hp.
+    destruct Hp as [Hp1 Hp0]. fold (protected_byte ts0' line' i) in Hp0.
+    rewrite Ej, prot1_byte_rel in Hp1 by lia. rewrite <- Es1' in Hp1.
+    destruct (chomp_next_token a s1) as [|t n|e]; try congruence.
+    2:{ destruct H3 as [e'' H3]. congruence. }
+    destruct (prot_tok_ins s1 t n (j - w)) eqn:Eprot.
+    { destruct H3 as (t'' & n'' & H3 & H3p). injection H3 as <- <-. congruence. }
+    injection H3 as -> ->.
+    destruct Hspec as [Hn _].
+    destruct (Nat.lt_ge_cases (j - w) n) as [Hin|Hout].
+    + rewrite sh_lt in E0' by lia. rewrite skipn_ins_le in E0' by lia.
+      replace (a + S n) with (1 + (a + n)) in E0' by lia. rewrite tok_from_shift in E0'.
+      apply add_res_ok in E0'. destruct E0' as (ts0 & E0 & _).
+      rewrite (tok_from_fuel f' f) in E0 by (rewrite skipn_length, Ls1; lia).
+      rewrite E0. cbn [prepend app]. eexists. split; [reflexivity|].
+      unfold protected_ins. cbn [existsb]. apply orb_false_iff. split.
+      * rewrite Ej, prot1_ins_rel by lia. exact Eprot.
+      * apply tok_from_lb in E0. eapply protected_ins_lb; [exact E0|]. lia.
+    + rewrite sh_ge in E0' by lia. rewrite Es1' in E0'. rewrite skipn_skipn' in E0'.
+      destruct (IH f' (a + n) ts0') as (ts0 & E0 & Hp0'); try assumption; try lia.
+      unfold s1. rewrite skipn_skipn', E0. cbn [prepend app]. eexists. split; [reflexivity|].
+      unfold protected_ins. cbn [existsb]. apply orb_false_iff. split; [|exact Hp0'].
+      rewrite Ej, prot1_ins_rel by lia. exact Eprot.
+Qed.
+
+End Del.
+
+(* ------------------------------------------------------------------ *)
+(* Item 1: blank insertion and deletion *)
+
+Theorem crunch_insert_ranges : forall line skip ts i w,
+  skip <= i <= length line -> is_basic_ws w = true ->
+  tokenize line skip = TokOk ts -> protected_ins ts line i = false ->
+  tokenize (ins_at i w line) skip = TokOk (map (shift_r i) ts).
+Proof.
+  intros line skip ts i w Hi Hw H Hp. rewrite tokenize_tok_from in *.
+  apply (ins_driver w Hw line i ltac:(lia) (S (length (skipn skip line)))); try assumption; try lia.
+  - rewrite skipn_length. lia.
+  - rewrite skipn_length, length_ins_at. lia.
+Qed.
+
+Theorem crunch_insert : forall line skip ts i w,
+  skip <= i <= length line -> is_basic_ws w = true ->
+  tokenize line skip = TokOk ts -> protected_ins ts line i = false ->
+  tokens_of (tokenize (ins_at i w line) skip) = Some (map fst ts).
+Proof.
+  intros line skip ts i w Hi Hw H Hp.
+  rewrite (crunch_insert_ranges line skip ts i w) by assumption.
+  cbn [tokens_of]. now rewrite map_fst_shift_r.
+Qed.
+
+(* Deleting the blank at index [i] of [ins_at i w line]. *)
+Theorem crunch_delete_ranges : forall line skip ts' i w,
+  skip <= i <= length line -> is_basic_ws w = true ->
+  tokenize (ins_at i w line) skip = TokOk ts' ->
+  protected_byte ts' (ins_at i w line) i = false ->
+  exists ts, tokenize line skip = TokOk ts /\ protected_ins ts line i = false
+             /\ ts' = map (shift_r i) ts.
+Proof.
+  intros line skip ts' i w Hi Hw H Hp. pose proof H as H0. rewrite tokenize_tok_from in H.
+  assert (exists ts, tok_from (S (length (skipn skip line))) skip (skipn skip line) = TokOk ts
+                     /\ protected_ins ts line i = false) as (ts & Hts & Hpi).
+  { eapply (del_driver w Hw line i ltac:(lia)); [| | |exact H|exact Hp];
+      rewrite ?skipn_length, ?length_ins_at; lia. }
+  rewrite <- tokenize_tok_from in Hts. exists ts. split; [exact Hts|]. split; [exact Hpi|].
+  pose proof (crunch_insert_ranges line skip ts i w Hi Hw Hts Hpi) as H1. congruence.
+Qed.
+
+Theorem crunch_delete : forall line skip ts' i w,
+  skip <= i <= length line -> is_basic_ws w = true ->
+  tokenize (ins_at i w line) skip = TokOk ts' ->
+  protected_byte ts' (ins_at i w line) i = false ->
+  tokens_of (tokenize line skip) = Some (map fst ts').
+Proof.
+  intros line skip ts' i w Hi Hw H Hp.
+  destruct (crunch_delete_ranges line skip ts' i w Hi Hw H Hp) as (ts & Hts & _ & ->).
+  rewrite Hts. cbn [tokens_of]. now rewrite map_fst_shift_r.
+Qed.
+
+
+(* ------------------------------------------------------------------ *)
+(* Case flips *)
+
+Lemma flip_at_nil j : flip_at j [] = [].
+Proof. destruct j; reflexivity. Qed.
+
+Lemma length_flip_at : forall s j, length (flip_at j s) = length s.
+Proof. induction s as [|x t IH]; intros [|j]; cbn [flip_at length]; auto. Qed.
+
+Lemma flip_at_ge : forall s j, length s <= j -> flip_at j s = s.
+Proof.
+  induction s as [|x t IH]; intros j Hj; [apply flip_at_nil|].
+  destruct j as [|j]; cbn [length] in Hj; [lia|]. cbn [flip_at]. rewrite IH by lia. reflexivity.
+Qed.
+
+Lemma firstn_flip_ge : forall n j s, n <= j -> firstn n (flip_at j s) = firstn n s.
+Proof.
+  induction n as [|n IH]; intros j s Hj; [reflexivity|].
+  destruct j as [|j]; [lia|]. destruct s as [|x t]; [reflexivity|].
+  cbn [flip_at firstn]. rewrite IH by lia. reflexivity.
+Qed.
+
+Lemma skipn_flip_lt : forall n j s, j < n -> skipn n (flip_at j s) = skipn n s.
+Proof.
+  induction n as [|n IH]; intros j s Hj; [lia|].
+  destruct s as [|x t]; [now rewrite flip_at_nil|].
+  destruct j as [|j]; cbn [flip_at skipn]; [reflexivity|]. apply IH. lia.
+Qed.
+
+Lemma skipn_flip_ge : forall n j s, n <= j -> skipn n (flip_at j s) = flip_at (j - n) (skipn n s).
+Proof.
+  induction n as [|n IH]; intros j s Hj; [now rewrite Nat.sub_0_r|].
+  destruct j as [|j]; [lia|]. destruct s as [|x t]; [cbn [skipn]; now rewrite !flip_at_nil|].
+  cbn [flip_at skipn Nat.sub]. apply IH. lia.
+Qed.
+
+(* The pointwise relation "same byte, or the other-case letter". *)
+Definition R (b b' : N) : Prop := b' = b \/ b' = flipc b.
+
+Lemma Forall2_R_refl s : Forall2 R s s.
+Proof. induction s; constructor; [now left|assumption]. Qed.
+
+Lemma flip_at_R : forall s j, Forall2 R s (flip_at j s).
+Proof.
+  induction s as [|x t IH]; intros [|j]; cbn [flip_at]; constructor;
+    try (now left); try (now right); auto using Forall2_R_refl.
+Qed.
+
+Lemma Forall2_skipn {A B} (P : A -> B -> Prop) : forall n l l',
+  Forall2 P l l' -> Forall2 P (skipn n l) (skipn n l').
+Proof.
+  induction n as [|n IH]; intros l l' H; [exact H|].
+  destruct H; cbn [skipn]; [constructor|auto].
+Qed.
+
+Ltac flip_classes :=
+  unfold flipc, to_upper, is_basic_ws, is_ascii_ws, is_alnum, is_alpha, is_digit, is_upper, is_lower in *.
+
+Lemma flipc_cases b : flipc b = b \/ (flipc b = (b + 32)%N /\ (65 <= b <= 90)%N)
+                      \/ (flipc b = (b - 32)%N /\ (97 <= b <= 122)%N).
+Proof.
+  unfold flipc, is_upper, is_lower.
+  destruct ((65 <=? b)%N && (b <=? 90)%N) eqn:E1; [right; left; lia|].
+  destruct ((97 <=? b)%N && (b <=? 122)%N) eqn:E2; [right; right; lia|]. now left.
+Qed.
+
+Lemma R_cases b b' : R b b' ->
+  b' = b \/ (b' = (b + 32)%N /\ (65 <= b <= 90)%N) \/ (b' = (b - 32)%N /\ (97 <= b <= 122)%N).
+Proof. intros [->| ->]; [now left|]. apply flipc_cases. Qed.
+
+Lemma R_ws b b' : R b b' -> is_basic_ws b' = is_basic_ws b.
+Proof. intros H. apply R_cases in H. unfold is_basic_ws, is_ascii_ws. lia. Qed.
+
+Lemma R_up b b' : R b b' -> to_upper b' = to_upper b.
+Proof.
+  intros H. apply R_cases in H. unfold to_upper, is_lower.
+  destruct ((97 <=? b')%N && (b' <=? 122)%N) eqn:E1, ((97 <=? b)%N && (b <=? 122)%N) eqn:E2; lia.
+Qed.
+
+Lemma R_digdot b b' : R b b' ->
+  (is_digit b' || (b' =? 46)%N) = (is_digit b || (b =? 46)%N)
+  /\ ((is_digit b || (b =? 46)%N) = true -> b' = b).
+Proof. intros H. apply R_cases in H. unfold is_digit. lia. Qed.
+
+Lemma R_alpha b b' : R b b' -> is_alpha b' = is_alpha b.
+Proof. intros H. apply R_cases in H. unfold is_alpha, is_upper, is_lower. lia. Qed.
+
+Lemma R_alnum b b' : R b b' -> is_alnum b' = is_alnum b.
+Proof. intros H. apply R_cases in H. unfold is_alnum, is_alpha, is_upper, is_lower, is_digit. lia. Qed.
+
+Lemma R_eqb c b b' : R b b' -> is_alpha c = false -> (c =? b')%N = (c =? b)%N.
+Proof. intros H. apply R_cases in H. unfold is_alpha, is_upper, is_lower. lia. Qed.
+
+Lemma R_eqb' c b b' : R b b' -> is_alpha c = false -> (b' =? c)%N = (b =? c)%N.
+Proof. intros H Hc. rewrite !(N.eqb_sym _ c). now apply R_eqb. Qed.
+
+(* L1 *)
+
+Lemma ckf_R s s' : Forall2 R s s' -> forall kw acc,
+  chomp_keyword_from kw s' acc = chomp_keyword_from kw s acc.
+Proof.
+  induction 1 as [|b b' s s' Hb Hs IH]; intros [|k kw] acc; try reflexivity.
+  cbn [chomp_keyword_from]. rewrite (R_ws _ _ Hb), (R_up _ _ Hb).
+  destruct (is_basic_ws b); [apply IH|]. destruct (to_upper b =? k)%N; [apply IH|reflexivity].
+Qed.
+
+Lemma chomp_keyword_R s s' kw : Forall2 R s s' -> chomp_keyword kw s' = chomp_keyword kw s.
+Proof. intros H. destruct kw; [reflexivity|]. unfold chomp_keyword. now apply ckf_R. Qed.
+
+Lemma first_keyword_R tbl s s' : Forall2 R s s' -> first_keyword tbl s' = first_keyword tbl s.
+Proof.
+  intros H. induction tbl as [|[kw t] tbl IH]; cbn [first_keyword]; [reflexivity|].
+  rewrite (chomp_keyword_R _ _ kw H), IH. reflexivity.
+Qed.
+
+Lemma chomp_any_keyword_R s s' : Forall2 R s s' -> chomp_any_keyword s' = chomp_any_keyword s.
+Proof. apply first_keyword_R. Qed.
+
+Lemma crunch_next_R s s' : Forall2 R s s' ->
+  match crunch_next s with
+  | Some (c, n) => exists c', crunch_next s' = Some (c', n) /\ R c c'
+  | None => crunch_next s' = None
+  end.
+Proof.
+  induction 1 as [|b b' s s' Hb Hs IH]; cbn [crunch_next]; [reflexivity|].
+  rewrite (R_ws _ _ Hb). destruct (is_basic_ws b); [|eauto].
+  destruct (crunch_next s) as [[c n]|].
+  - destruct IH as (c' & -> & Hc). eauto.
+  - now rewrite IH.
+Qed.
+
+(* The punctuation tables contain no letters (decided by computation). *)
+Definition punct_na (tbl : list (N * token)) : bool :=
+  forallb (fun e => negb (is_alpha (fst e))) tbl.
+Definition two_char_na (tbl : list (token * N * token)) : bool :=
+  forallb (fun e => negb (is_alpha (snd (fst e)))) tbl.
+
+Lemma tables_na : punct_na punct = true /\ two_char_na two_char = true.
+Proof. vm_compute. split; reflexivity. Qed.
+
+Lemma lookup_punct_R tbl b b' :
+  punct_na tbl = true -> R b b' -> lookup_punct tbl b' = lookup_punct tbl b.
+Proof.
+  intros Hok Hb. induction tbl as [|[c t] tbl IH]; cbn [lookup_punct]; [reflexivity|].
+  cbn [punct_na forallb fst] in Hok. apply andb_true_iff in Hok. destruct Hok as [Hc Hok].
+  apply negb_true_iff in Hc. rewrite (R_eqb c _ _ Hb Hc), (IH Hok). reflexivity.
+Qed.
+
+Lemma lookup_two_R tbl f b b' :
+  two_char_na tbl = true -> R b b' -> lookup_two tbl f b' = lookup_two tbl f b.
+Proof.
+  intros Hok Hb. induction tbl as [|[[f0 c] t] tbl IH]; cbn [lookup_two]; [reflexivity|].
+  cbn [two_char_na forallb fst snd] in Hok. apply andb_true_iff in Hok. destruct Hok as [Hc Hok].
+  apply negb_true_iff in Hc. rewrite (R_eqb c _ _ Hb Hc), (IH Hok). reflexivity.
+Qed.
+
+(* L2 *)
+
+Lemma chomp_one_or_two_R s s' : Forall2 R s s' -> chomp_one_or_two s' = chomp_one_or_two s.
+Proof.
+  intros H. unfold chomp_one_or_two. pose proof (crunch_next_R _ _ H) as H1.
+  destruct (crunch_next s) as [[b n]|]; [|now rewrite H1].
+  destruct H1 as (b' & -> & Hb). rewrite (lookup_punct_R _ _ _ (proj1 tables_na) Hb).
+  destruct (lookup_punct punct b) as [t|]; [|reflexivity].
+  pose proof (crunch_next_R _ _ (Forall2_skipn R n _ _ H)) as H2.
+  destruct (crunch_next (skipn n s)) as [[c m]|]; [|now rewrite H2].
+  destruct H2 as (c' & -> & Hc). rewrite (lookup_two_R _ _ _ _ (proj2 tables_na) Hc). reflexivity.
+Qed.
+
+Lemma number_span_R s s' : Forall2 R s s' -> forall k d l,
+  number_span s' k d l = number_span s k d l.
+Proof.
+  induction 1 as [|b b' s s' Hb Hs IH]; intros k d l; cbn [number_span]; [reflexivity|].
+  rewrite (R_ws _ _ Hb). destruct (is_basic_ws b); [apply IH|].
+  destruct (R_digdot _ _ Hb) as [E1 E2]. rewrite E1.
+  destruct (is_digit b || (b =? 46)%N); [|reflexivity]. rewrite (E2 eq_refl). apply IH.
+Qed.
+
+Lemma chomp_number_R p s s' : Forall2 R s s' -> chomp_number p s' = chomp_number p s.
+Proof. intros H. unfold chomp_number. now rewrite (number_span_R _ _ H). Qed.
+
+Lemma dollar_na : is_alpha 36 = false. Proof. reflexivity. Qed.
+Lemma quote_na : is_alpha 34 = false. Proof. reflexivity. Qed.
+
+Lemma symbol_span_R s s' : Forall2 R s s' -> forall chars c p,
+  symbol_span s' chars c p = symbol_span s chars c p.
+Proof.
+  induction 1 as [|b b' s s' Hb Hs IH]; intros chars c p; cbn [symbol_span]; [reflexivity|].
+  rewrite (R_ws _ _ Hb), (R_alpha _ _ Hb), (R_alnum _ _ Hb), (R_up _ _ Hb),
+    (R_eqb' 36 _ _ Hb dollar_na), (chomp_any_keyword_R _ _ Hs).
+  destruct (is_basic_ws b); [apply IH|].
+  destruct (negb _); [reflexivity|].
+  destruct (b =? 36)%N; [reflexivity|].
+  destruct (chomp_any_keyword s); [reflexivity|apply IH].
+Qed.
+
+Lemma chomp_symbol_R s s' : Forall2 R s s' -> chomp_symbol s' = chomp_symbol s.
+Proof. intros H. unfold chomp_symbol. now rewrite (symbol_span_R _ _ H). Qed.
+
+Lemma find_quote_R s s' : Forall2 R s s' -> find_quote s' = find_quote s.
+Proof.
+  induction 1 as [|b b' s s' Hb Hs IH]; cbn [find_quote]; [reflexivity|].
+  rewrite (R_eqb' 34 _ _ Hb quote_na), IH. reflexivity.
+Qed.
+
+Lemma flipc_quote : flipc 34 = 34%N. Proof. reflexivity. Qed.
+
+Lemma chomp_string_flip p s j :
+  match chomp_string p s with
+  | Match t n => j = 0 \/ n <= S j -> chomp_string p (flip_at j s) = Match t n
+  | NoMatch => chomp_string p (flip_at j s) = NoMatch
+  | Fail _ => True
+  end.
+Proof.
+  rewrite !chomp_string_eq. destruct s as [|b r]; [now rewrite flip_at_nil|].
+  destruct j as [|j]; cbn [flip_at].
+  - destruct (N.eqb_spec b 34) as [->|Hb].
+    + rewrite flipc_quote. cbn. destruct (find_quote r); auto.
+    + assert (E : (flipc b =? 34)%N = false).
+      { rewrite (R_eqb' 34 b (flipc b)); [lia|now right|reflexivity]. }
+      now rewrite E.
+  - destruct (b =? 34)%N; [|reflexivity].
+    rewrite (find_quote_R _ _ (flip_at_R r j)).
+    destruct (find_quote r) as [q|]; [|exact I].
+    intros [H|H]; [lia|]. rewrite firstn_flip_ge by lia. reflexivity.
+Qed.
+
+Lemma chomp_keyword_pos kw s k : chomp_keyword kw s = Some k -> 1 <= k.
+Proof.
+  destruct kw as [|x kw]; [discriminate|]. unfold chomp_keyword. intros H.
+  apply ckf_bound in H. destruct H as [_ H]. assert (0 < k) by (apply H; congruence). lia.
+Qed.
+
+Lemma chomp_remark_flip s j :
+  match chomp_remark s with
+  | Match t n => exists c k, t = TRemark c /\ n = k + length c /\ 1 <= k /\
+                   (j < k -> chomp_remark (flip_at j s) = Match t n)
+  | NoMatch => chomp_remark (flip_at j s) = NoMatch
+  | Fail _ => False
+  end.
+Proof.
+  unfold chomp_remark. rewrite (chomp_keyword_R _ _ _ (flip_at_R s j)).
+  destruct (chomp_keyword rem_keyword s) as [k|] eqn:Ek; [|reflexivity].
+  exists (skipn k s), k. split; [reflexivity|]. split; [reflexivity|].
+  split; [eapply chomp_keyword_pos; eauto|].
+  intros Hj. rewrite skipn_flip_lt by lia. reflexivity.
+Qed.
+
+(* The DATA parser does not see a flip at or beyond the point where it stopped. *)
+Lemma dp_stops_head b0 r q :
+  dp_stops (firstn (utf8_len b0) (b0 :: r)) q = true -> b0 = 58%N.
+Proof.
+  unfold dp_stops. intros H. apply andb_true_iff in H. destruct H as [_ H].
+  pose proof (utf8_len_pos b0) as Hl. destruct (utf8_len b0) as [|l] eqn:El; [lia|].
+  cbn [firstn] in H. destruct (firstn l r) eqn:Ef; [|discriminate].
+  cbn [char_is] in H. now apply N.eqb_eq in H.
+Qed.
+
+Lemma dp_flip_after : forall f s q cur el n0 j r m,
+  length s <= f ->
+  dp_run (utf8_chars_fuel f s) q cur el n0 = (r, m) -> m <= n0 + j ->
+  dp_run (utf8_chars_fuel f (flip_at j s)) q cur el n0 = (r, m).
+Proof.
+  induction f as [|f IH]; intros s q cur el n0 j r m Hf H Hm.
+  { destruct s; [now rewrite flip_at_nil|cbn in Hf; lia]. }
+  destruct s as [|b0 r0]; [now rewrite flip_at_nil|]. cbn [length] in Hf.
+  pose proof (utf8_len_pos b0) as Hl.
+  destruct (Nat.le_gt_cases (length (b0 :: r0)) j) as [Hge|Hlt].
+  { now rewrite flip_at_ge. }
+  pose proof H as H0.
+  rewrite utf8_chars_fuel_cons, dp_run_cons in H.
+  destruct (dp_stops (firstn (utf8_len b0) (b0 :: r0)) q) eqn:Es.
+  - apply dp_stops_head in Es as Eb. subst b0.
+    destruct j as [|j]; cbn [flip_at]; [exact H0|].
+    rewrite utf8_chars_fuel_cons, dp_run_cons.
+    change (utf8_len 58) with 1 in *. cbn [firstn] in *. rewrite Es. exact H.
+  - destruct (dp_next _ q cur el) as [[q' cur'] el'] eqn:En.
+    pose proof (dp_run_mono _ _ _ _ _ _ _ H) as Hmono.
+    rewrite firstn_length in Hmono. cbn [length] in *.
+    set (len := utf8_len b0) in *.
+    destruct j as [|j]; [lia|].
+    assert (Hlen : len <= S j) by lia.
+    assert (E : flip_at (S j) (b0 :: r0) = b0 :: flip_at j r0) by reflexivity.
+    assert (E2 : utf8_chars_fuel (S f) (flip_at (S j) (b0 :: r0)) =
+                 firstn len (flip_at (S j) (b0 :: r0))
+                 :: utf8_chars_fuel f (skipn len (flip_at (S j) (b0 :: r0)))) by (rewrite E; reflexivity).
+    rewrite E2, dp_run_cons. rewrite firstn_flip_ge, skipn_flip_ge by lia. rewrite Es, En.
+    apply IH; [rewrite skipn_length; cbn [length]; lia|exact H|].
+    rewrite firstn_length. cbn [length]. lia.
+Qed.
+
+Lemma parse_data_flip_after text j r m :
+  parse_data text = (r, m) -> m <= j -> parse_data (flip_at j text) = (r, m).
+Proof.
+  unfold parse_data, utf8_chars. intros H Hm. rewrite length_flip_at.
+  eapply dp_flip_after; eauto.
+Qed.
+
+Lemma chomp_data_flip s j :
+  match chomp_data s with
+  | Match t n => exists k, chomp_keyword data_keyword s = Some k /\ is_data t = true /\ 1 <= k /\
+                   (j < k \/ n <= j -> chomp_data (flip_at j s) = Match t n)
+  | NoMatch => chomp_data (flip_at j s) = NoMatch
+  | Fail _ => False
+  end.
+Proof.
+  unfold chomp_data. rewrite (chomp_keyword_R _ _ _ (flip_at_R s j)).
+  destruct (chomp_keyword data_keyword s) as [k|] eqn:Ek; [|reflexivity].
+  destruct (parse_data (skipn k s)) as [el m] eqn:Ep.
+  exists k. split; [reflexivity|]. split; [reflexivity|].
+  split; [eapply chomp_keyword_pos; eauto|].
+  intros [Hj|Hj].
+  - rewrite skipn_flip_lt by lia. now rewrite Ep.
+  - rewrite skipn_flip_ge by lia. rewrite (parse_data_flip_after _ _ _ _ Ep) by lia. reflexivity.
+Qed.
+
+(* L3 *)
+Lemma chomp_next_token_flip p s j :
+  match chomp_next_token p s with
+  | Match t n => (0 <? j) && prot_tok_byte s t n j = false ->
+                 chomp_next_token p (flip_at j s) = Match t n
+  | _ => True
+  end.
+Proof.
+  unfold chomp_next_token. pose proof (flip_at_R s j) as HR.
+  rewrite (chomp_any_keyword_R _ _ HR).
+  destruct (chomp_any_keyword s) as [[t n]|]; [reflexivity|].
+  rewrite (chomp_one_or_two_R _ _ HR).
+  destruct (chomp_one_or_two s) as [[t n]|]; [reflexivity|].
+  pose proof (chomp_string_flip p s j) as H3.
+  destruct (chomp_string p s) as [|t n|e] eqn:E3; [|clear HR|exact I].
+  2:{ apply chomp_string_is_str in E3. destruct t; try discriminate. cbn [prot_tok_byte].
+      intros Hp. rewrite H3; [reflexivity|lia]. }
+  rewrite H3, (chomp_number_R p _ _ HR).
+  destruct (chomp_number p s) as [|t n|e]; [|reflexivity|exact I].
+  pose proof (chomp_remark_flip s j) as H5.
+  destruct (chomp_remark s) as [|t n|e]; [| |destruct H5].
+  2:{ destruct H5 as (c & k & -> & -> & Hk & H5). cbn [prot_tok_byte]. intros Hp.
+      rewrite H5; [reflexivity|lia]. }
+  rewrite H5.
+  pose proof (chomp_data_flip s j) as H6.
+  destruct (chomp_data s) as [|t n|e]; [| |destruct H6].
+  2:{ destruct H6 as (k & Ek & Hd & Hk & H6). destruct t; try discriminate.
+      cbn [prot_tok_byte]. rewrite Ek. intros Hp. rewrite H6; [reflexivity|lia]. }
+  rewrite H6, (chomp_symbol_R _ _ HR).
+  destruct (chomp_symbol s) as [|t n|e]; [exact I|reflexivity|exact I].
+Qed.
+
+
+Lemma leading_ws_R s s' : Forall2 R s s' -> leading_ws s' = leading_ws s.
+Proof.
+  induction 1 as [|b b' s s' Hb Hs IH]; cbn [leading_ws]; [reflexivity|].
+  rewrite (R_ws _ _ Hb), IH. reflexivity.
+Qed.
+
+Lemma prot1_byte_rel0 line a n j t :
+  prot1_byte line (a + j) (t, (a, a + n)) = (0 <? j) && prot_tok_byte (skipn a line) t n j.
+Proof.
+  unfold prot1_byte, prot_tok_byte.
+  destruct t; try lia.
+  destruct (chomp_keyword data_keyword (skipn a line)); lia.
+Qed.
+
+Section Flip.
+Variable line : bytes.
+Variable i : nat.
+
+Let line' := flip_at i line.
+
+Lemma flip_driver : forall f pos ts,
+  tok_from f pos (skipn pos line) = TokOk ts ->
+  protected_byte ts line i = false ->
+  tok_from f pos (skipn pos line') = TokOk ts.
+Proof.
+  induction f as [|f IH]; intros pos ts H Hp; [exact H|].
+  destruct (Nat.lt_ge_cases i pos) as [Hlt|Hge].
+  { unfold line'. now rewrite skipn_flip_lt. }
+  unfold line'. rewrite skipn_flip_ge by assumption.
+  set (s := skipn pos line) in *. set (j := i - pos).
+  cbn [tok_from] in H |- *. rewrite (leading_ws_R _ _ (flip_at_R s j)).
+  set (w := leading_ws s) in *.
+  destruct (Nat.lt_ge_cases j w) as [Hjw|Hjw].
+  { rewrite skipn_flip_lt by assumption. exact H. }
+  rewrite skipn_flip_ge by assumption.
+  set (a := pos + w) in *.
+  assert (Es1 : skipn w s = skipn a line) by (unfold s, a; apply skipn_skipn').
+  rewrite Es1 in *. set (s1 := skipn a line) in *.
+  assert (Ej : i = a + (j - w)) by lia.
+  assert (Es1' : flip_at (j - w) s1 = skipn a line').
+  { unfold line', s1. rewrite skipn_flip_ge by lia. f_equal. lia. }
+  pose proof (chomp_next_token_flip a s1 (j - w)) as H3.
+  destruct s1 as [|c r] eqn:Es1''; [rewrite flip_at_nil; exact H|]. rewrite <- Es1'' in *.
+  destruct (flip_at (j - w) s1) as [|c' r'] eqn:Ei.
+  { apply (f_equal (@length _)) in Ei. rewrite length_flip_at, Es1'' in Ei. discriminate. }
+  rewrite <- Ei in *. clear Ei c' r'.
+  destruct (chomp_next_token a s1) as [|t n|e]; try discriminate.
+  destruct (tok_from f (a + n) (skipn n s1)) as [ts0|] eqn:E0; try discriminate.
+  cbn [prepend app] in H. inversion H; subst ts. clear H.
+  unfold protected_byte in Hp. cbn [existsb] in Hp. apply orb_false_iff in Hp.
+  destruct Hp as [Hp1 Hp0]. fold (protected_byte ts0 line i) in Hp0.
+  rewrite Ej, prot1_byte_rel0 in Hp1. rewrite (H3 Hp1).
+  rewrite Es1', skipn_skipn'. unfold s1 in E0. rewrite skipn_skipn' in E0.
+  rewrite (IH _ _ E0 Hp0). reflexivity.
+Qed.
+
+End Flip.
+
+(* ------------------------------------------------------------------ *)
+(* Item 2: case flips *)
+
+Theorem crunch_flip_ranges : forall line skip ts i,
+  tokenize line skip = TokOk ts -> protected_flip ts line i = false ->
+  tokenize (flip_at i line) skip = TokOk ts.
+Proof.
+  intros line skip ts i H Hp. rewrite tokenize_tok_from in *.
+  rewrite skipn_length, length_flip_at, <- skipn_length. now apply flip_driver.
+Qed.
+
+Theorem crunch_flip : forall line skip ts i,
+  tokenize line skip = TokOk ts -> protected_flip ts line i = false ->
+  tokens_of (tokenize (flip_at i line) skip) = Some (map fst ts).
+Proof.
+  intros line skip ts i H Hp. now rewrite (crunch_flip_ranges line skip ts i H Hp).
+Qed.
+
+(* ------------------------------------------------------------------ *)
+(* Item 3: any finite sequence of elementary edits.  Each step is judged on
+   the text it is applied to, with that text's own token ranges. *)
+
+Inductive edit (skip : nat) : bytes -> bytes -> Prop :=
+| edit_ins line ts i w :
+    skip <= i <= length line -> is_basic_ws w = true ->
+    tokenize line skip = TokOk ts -> protected_ins ts line i = false ->
+    edit skip line (ins_at i w line)
+| edit_del line ts' i w :
+    skip <= i <= length line -> is_basic_ws w = true ->
+    tokenize (ins_at i w line) skip = TokOk ts' ->
+    protected_byte ts' (ins_at i w line) i = false ->
+    edit skip (ins_at i w line) line
+| edit_flip line ts i :
+    tokenize line skip = TokOk ts -> protected_flip ts line i = false ->
+    edit skip line (flip_at i line).
+
+Lemma tokens_of_ok r toks : tokens_of r = Some toks -> exists ts, r = TokOk ts /\ toks = map fst ts.
+Proof. destruct r as [ts|ts e]; cbn [tokens_of]; [|discriminate]. intros H; inversion H; eauto. Qed.
+
+Theorem edit_preserves skip l l' :
+  edit skip l l' -> tokens_of (tokenize l' skip) = tokens_of (tokenize l skip)
+                    /\ exists toks, tokens_of (tokenize l skip) = Some toks.
+Proof.
+  intros [line ts i w Hi Hw H Hp|line ts' i w Hi Hw H Hp|line ts i H Hp].
+  - rewrite (crunch_insert line skip ts i w Hi Hw H Hp), H. cbn [tokens_of]. eauto.
+  - rewrite (crunch_delete line skip ts' i w Hi Hw H Hp), H. cbn [tokens_of]. eauto.
+  - rewrite (crunch_flip line skip ts i H Hp), H. cbn [tokens_of]. eauto.
+Qed.
+
+Theorem edits_preserve skip l l' :
+  clos_refl_trans _ (edit skip) l l' ->
+  tokens_of (tokenize l' skip) = tokens_of (tokenize l skip).
+Proof.
+  induction 1 as [l l' H| |l1 l2 l3 _ IH1 _ IH2]; [|reflexivity|congruence].
+  now apply edit_preserves.
+Qed.
+
+Corollary crunch_edits : forall skip line line' ts,
+  clos_refl_trans _ (edit skip) line line' -> tokenize line skip = TokOk ts ->
+  tokens_of (tokenize line' skip) = Some (map fst ts).
+Proof. intros skip line line' ts H Ht. rewrite (edits_preserve _ _ _ H), Ht. reflexivity. Qed.
+
+(* ------------------------------------------------------------------ *)
+(* Item 4: non-vacuity *)
+
+Definition unprot_everywhere (line : bytes) : bool :=
+  match tokenize line 0 with
+  | TokOk ts => forallb (fun i => negb (protected_ins ts line i)) (seq 0 (S (length line)))
+  | TokErr _ _ => false
+  end.
+
+Definition prot_positions (line : bytes) : list nat :=
+  match tokenize line 0 with
+  | TokOk ts => filter (protected_ins ts line) (seq 0 (S (length line)))
+  | TokErr _ _ => []
+  end.
+
+Example ex_same_tokens :
+  exists x,
+    tokens_of (tokenize (bs "P R I N T 1 2 3") 0) = Some [TPrint; TNumber x]
+    /\ tokens_of (tokenize (bs "print123") 0) = Some [TPrint; TNumber x]
+    /\ tokens_of (tokenize (bs "PRINT 123") 0) = Some [TPrint; TNumber x].
+Proof. eexists. vm_compute. repeat split; reflexivity. Qed.
+
+Example ex_unprotected : unprot_everywhere (bs "PRINT 123") = true.
+Proof. vm_compute. reflexivity. Qed.
+
+Example ex_string_protected : prot_positions (bs "PRINT ""a b""") = [7; 8; 9; 10].
+Proof. vm_compute. reflexivity. Qed.
+
+Example ex_rem_protected : prot_positions (bs "R E M x") = [5; 6; 7].
+Proof. vm_compute. reflexivity. Qed.
+
+Example ex_data_protected : prot_positions (bs "DATA 1, 2:PRINT") = [4; 5; 6; 7; 8; 9].
+Proof. vm_compute. reflexivity. Qed.
